@@ -877,8 +877,17 @@ class Gen(object):
     def g_validate_rerun(self):
         if not self.U.validations:
             return self.g_validate_keep()
-        return {"op": "validate_rerun", "k": self.rng.randrange(len(self.U.validations)),
-                "report": self.chance(0.3)}
+        # state-directed: ask a Validation that has reported before for its report again
+        asked = getattr(self, "_reported_vals", None)
+        if asked is None:
+            asked = self._reported_vals = []
+        if asked and self.chance(0.4):
+            return {"op": "validate_rerun", "k": self.pick(asked), "report": True}
+        k = self.rng.randrange(len(self.U.validations))
+        report = self.chance(0.3)
+        if report and k not in asked:
+            asked.append(k)
+        return {"op": "validate_rerun", "k": k, "report": report}
 
     def g_validate_optional(self):
         x = self.pick(self.U.objs)
